@@ -23,6 +23,37 @@ def _varhash(v):
     return h % (_P - 3) + 2
 
 
+class SAtom(tuple):
+    """Interned structured variable (e.g. ('norm', <frozen form>)): equal
+    structures are one object, so hashing/comparison/printing are O(1)."""
+    _table = {}
+
+    def __new__(cls, kind, *payload):
+        key = (kind,) + payload
+        obj = cls._table.get(key)
+        if obj is None:
+            obj = tuple.__new__(cls, key)
+            obj.uid = len(cls._table) + 1
+            cls._table[key] = obj
+        return obj
+
+    def __hash__(self):
+        return hash(('SAtom', self.uid))
+
+    def __eq__(self, other):
+        return self is other
+
+    def __ne__(self, other):
+        return self is not other
+
+    def __repr__(self):
+        return '%s#%d' % (tuple.__getitem__(self, 0), self.uid)
+
+
+def satom(kind, *payload):
+    return SAtom(kind, *payload)
+
+
 class Poly(object):
     __slots__ = ('t',)
 
@@ -221,9 +252,10 @@ def _vname(v):
 
 class Rat(object):
     """Rational function num/den (den != 0)."""
-    __slots__ = ('n', 'd')
+    __slots__ = ('n', 'd', '_h')
 
     def __init__(self, n, d=None):
+        self._h = None
         n = Poly.coerce(n)
         d = Poly.const(1) if d is None else Poly.coerce(d)
         if d.is_zero():
@@ -304,10 +336,13 @@ class Rat(object):
         return not a == b
 
     def __hash__(a):
-        dn = a.d.evalmod()
-        if dn == 0:      # astronomically unlikely; stay consistent
-            return 0
-        return (a.n.evalmod() * pow(dn, _P - 2, _P)) % _P
+        if a._h is None:
+            dn = a.d.evalmod()
+            if dn == 0:      # astronomically unlikely; stay consistent
+                a._h = 0
+            else:
+                a._h = (a.n.evalmod() * pow(dn, _P - 2, _P)) % _P
+        return a._h
 
     def is_zero(a):
         return a.n.is_zero()
